@@ -142,6 +142,9 @@ class VLock:
     def _free(self):
         return self.locked_by is None
 
+    def _free_for(self, me):
+        return self.locked_by is None
+
     def acquire(self, blocking=True, timeout=-1):
         env = self.env
         if not blocking and timeout != -1:
@@ -156,7 +159,8 @@ class VLock:
         if not blocking:
             return False
         if env.sched:
-            ok = env.sched.wait_until(self._free, None if timeout == -1 else timeout, 'lock')
+            me = env.me()      # the predicate is evaluated by whichever thread runs the scheduler
+            ok = env.sched.wait_until(lambda: self._free_for(me), None if timeout == -1 else timeout, 'lock')
             if ok:
                 self._take()
             return ok
@@ -190,6 +194,9 @@ class VRLock(VLock):
 
     def _free(self):
         return self.locked_by is None or self.locked_by == self.env.me()
+
+    def _free_for(self, me):
+        return self.locked_by is None or self.locked_by == me
 
     def _take(self):
         self.locked_by = self.env.me()
